@@ -259,6 +259,18 @@ pub fn c04_configs(tier: Tier) -> Vec<(Cfg, usize)> {
         c.msgs = vec!["m".into()];
         v.push((c, d));
     }
+    // move-cursor mode with a single bar: a clearing finish (explicit, or the default one at drop) takes
+    // the bar off the screen, a visible one leaves its final state
+    for rot in [0usize, 1, 3] {
+        let mut c = Cfg::base("c04-move-cursor-single", 20, 40);
+        c.move_cursor = true;
+        c.max_bars = 1;
+        c.fin_rot = rot;
+        c.root = vec![Op::Add, Op::Tick(0)];
+        c.msgs = vec![];
+        c.only = Some(|o| matches!(o, Op::Tick(_) | Op::Inc(_) | Op::Finish(_) | Op::FinishClear(_) | Op::Abandon(_) | Op::DropBar(_) | Op::Idle));
+        v.push((c, 3));
+    }
     let mut c = Cfg::base("c04-three-bars-all-orders", 20, 40);
     c.root = vec![Op::Add, Op::Add, Op::Add, Op::Tick(0), Op::Tick(1), Op::Tick(2)];
     c.inserts = false;
@@ -405,6 +417,20 @@ pub fn c19_configs(tier: Tier) -> Vec<(Cfg, usize)> {
         c.msgs = vec![];
         v.push((c, if tier == Tier::Quick { 3 } else { 4 }));
     }
+    // a terminal that does not report its height counts as 20 rows high: eleven two-line bars do not all fit
+    let mut c = Cfg::base("c19-default-height", 12, 20);
+    c.default_height = true;
+    c.may_omit = true;
+    c.two_line = true;
+    c.max_bars = 11;
+    c.inserts = false;
+    c.suspend = false;
+    c.bar_println = false;
+    c.remove = false;
+    c.msgs = vec![];
+    c.root = (0..11).map(|_| Op::Add).chain((0..11u8).map(Op::Tick)).collect();
+    c.only = Some(|o| matches!(o, Op::Tick(0 | 1 | 9 | 10) | Op::FinishClear(0 | 10) | Op::Finish(0 | 10) | Op::DropBar(0 | 10) | Op::MpPrintln | Op::MpClear));
+    v.push((c, if tier == Tier::Quick { 2 } else { 3 }));
     // move-cursor mode (redraws overwrite in place): clear/suspend still take every row off the screen,
     // wrapped ones included; the set of bars stays the same, as the documentation of the mode demands
     for (w, h) in [(3usize, 6usize), (6, 8)] {
